@@ -343,11 +343,14 @@ calcvla(struct func *f, struct type *t)
 		return;
 	assert(t->kind == TYPEARRAY);
 	if (!t->u.array.size) {
-		assert(t->base->size || t->base->kind == TYPEARRAY);
 		if (!t->u.array.length)
 			error(&tok.loc, "array of unspecified length ('[*]') used outside of a function prototype");
 		length = convert(f, &typeulong, t->u.array.length->type, funcexpr(f, t->u.array.length));
-		basesize = t->base->size ? mkintconst(t->base->size) : t->base->u.array.size;
+		/* a size of 0 stands for 'not constant' only in a variable length array */
+		if (t->base->size == 0 && t->base->kind == TYPEARRAY && t->base->prop & PROPVM)
+			basesize = t->base->u.array.size;
+		else
+			basesize = mkintconst(t->base->size);
 		t->u.array.size = funcinst(f, IMUL, 'l', length, basesize);
 	}
 }
